@@ -1075,14 +1075,14 @@ for _nm, _ps, _is in [
         ('cvxopt.lapack.trtrs', ['B'], [1]),
         ('cvxopt.lapack.geqrf', ['A', 'tau'], [0, 1]),
         ('cvxopt.lapack.ormqr', ['C'], [2]),
-        ('cvxopt.lapack.gesvd', ['A', 'S'], [0, 1]),
-        ('cvxopt.lapack.syevr', ['A', 'W'], [0, 1]),
+        ('cvxopt.lapack.gesvd', ['A', 'S', 'U', 'Vt'], [0, 1, 4, 5]),
+        ('cvxopt.lapack.syevr', ['A', 'W', 'Z'], [0, 1, 9]),
         ('cvxopt.lapack.syevd', ['A', 'W'], [0, 1]),
-        ('cvxopt.lapack.syevx', ['A', 'W'], [0, 1]),
+        ('cvxopt.lapack.syevx', ['A', 'W', 'Z'], [0, 1, 9]),
         ('cvxopt.lapack.gels', ['A', 'B'], [0, 1]),
         ('cvxopt.lapack.posv', ['A', 'B'], [0, 1]),
-        ('cvxopt.lapack.gesv', ['A', 'B'], [0, 1]),
-        ('cvxopt.lapack.sysv', ['A', 'B'], [0, 1]),
+        ('cvxopt.lapack.gesv', ['A', 'B', 'ipiv'], [0, 1, 2]),
+        ('cvxopt.lapack.sysv', ['A', 'B', 'ipiv'], [0, 1, 2]),
         ('cvxopt.lapack.lacpy', ['B'], [1]),
         ('cvxopt.lapack.pbtrf', ['A'], [0]),
         ('cvxopt.lapack.pbtrs', ['B'], [1]),
